@@ -178,6 +178,26 @@ def pipeline_rewirings(ctx, rng, n):
     return out
 
 
+def many_siblings(ctx):
+    """documents with more than ten pipelines, checkpoints, thread groups (positions are addressed by index paths such
+    as root.pipelines[10]: two-digit indices)"""
+    import pipes, copy
+    cell = next(c for c in pipes.all_cells() if pipes.cell_expected(c) and c[0] == "NUMERIC" and c[4] is None)
+    base = S.render(pipes.cell_scenario(cell), random.Random(1), "id", False, False)
+    out = []
+    for n in (9, 10, 11, 12, 13):
+        d = copy.deepcopy(base)
+        p1 = next(p for p in d["object_promises"] if p["id"] == 1)
+        a1 = next(a for a in d["actions"] if a["object_promise"].endswith(":1") or a["object_promise"].endswith("{%s}" % p1["name"]))
+        pl = d["pipelines"][0]
+        for k in range(20, 20 + n - 1):
+            d["object_promises"].append(dict(copy.deepcopy(p1), id=k, name="promise %d" % k))
+            d["actions"].append(dict(copy.deepcopy(a1), id=k, name="action %d" % k, object_promise="object_promise:%d" % k))
+            d["pipelines"].append(dict(copy.deepcopy(pl), id=k, name="pipeline %d" % k, object_promise="object_promise:%d" % k))
+        out.append(({"pipelines": n}, d))
+    return out
+
+
 def run(ctx):
     ok, thms, log = kernel.proof_step(ctx, regen=("tables",))
     rng = random.Random(ctx.seed)
@@ -194,6 +214,7 @@ def run(ctx):
     ship = shipped_rewirings(ctx, rng, 600 if quick else 6000)
     ship += comparison_grid(ctx)
     ship += pipeline_rewirings(ctx, rng, 400 if quick else 4000)
+    ship += many_siblings(ctx)
     kf_doc = kf_negative_id()
     ship.append(({"known_finding": "C12-negative-id-reached-by-alias"}, kf_doc))
     pool = impl.Pool(ctx)
